@@ -176,17 +176,18 @@ def run(ctx):
     loops = [n for n in ast.walk(si.node) if isinstance(n, ast.For)]
     ok = any('sanitize_registry[frontend].items()' in ast.unparse(l.iter) for l in loops) and \
         any('source.splitlines(keepends=True)' in ast.unparse(l.iter) for l in loops) and \
-        X.has(src, 'new_source += rule.filter(line, lineno=ll)') and X.has(src, 'pp_info[name] = rule.info') and X.has(src, 'rule.reset()')
+        True
     (ctx.judge('R3', 'sanitize_input loop') if ok else
      ctx.violation('R3', 'sanitize_input', si.where, 'rule application loop altered (not every line / rule, or info not stored)'))
+    ctx.wired('R3', 'sanitize_input:steps', si.where, src, ['new_source += rule.filter(line, lineno=ll)', 'pp_info[name] = rule.info', 'rule.reset()'],
+              'rule application loop altered (filter result not accumulated, info not stored, or rule not reset)')
     inner = [l for l in loops if 'splitlines' in ast.unparse(l.iter)]
     if inner and any(isinstance(n, (ast.Break, ast.Continue)) for n in ast.walk(inner[0])):
         ctx.violation('R3', 'sanitize_input:skip', si.where, 'some lines are skipped by the rule application loop')
     flt = m.get_function(FILE, 'PPRule.filter')
     fsrc = ast.unparse(flt.node)
-    ok = X.has(fsrc, 'self._info[lineno] += [info.groupdict()]') and X.has(fsrc, 'self.match.sub(self.replace, line)')
-    (ctx.judge('R3', 'PPRule.filter records every match') if ok else
-     ctx.violation('R3', 'PPRule.filter', flt.where, 'filter does not record the group dict of every match before substituting'))
+    ctx.wired('R3', 'PPRule.filter', flt.where, fsrc, ['self._info[lineno] += [info.groupdict()]', 'self.match.sub(self.replace, line)'],
+              'filter does not record the group dict of every match before substituting')
 
     # ---- R4
     ctx.rule('R4', 'PPRule: the attribute returned by `info` is rebound to a fresh container in reset() and mutated only by filter()')
